@@ -20,7 +20,11 @@ def build(U):
         f.r1_logging()
         # R11 / R10 / R5
         f.text = re.sub(cre, lambda m: m.group(1).lower() + '()', f.text)
-        f.text, n = re.subn(r'\bif (\w+) == (\w+\(\)) \{', r'if shim_slice_eq(\1, \2) {', f.text)
+        slice_params = set(re.findall(r'(\w+): &\[u8\]', f.text[:f.text.index('{')]))
+        def r10(m):
+            lhs = m.group(1)
+            return 'if shim_slice_eq(%s, %s) {' % (lhs if lhs in slice_params else '%s.as_slice()' % lhs, m.group(2))
+        f.text, n = re.subn(r'\bif (\w+) == (\w+\(\)) \{', r10, f.text)
         if n: U.log.rule('R10', f, '%d slice comparison(s)' % n)
         f.text, n = re.subn(r'btoi::btoi::<i64>\(', 'shim_btoi_i64(', f.text)
         if n: U.log.rule('R5', f, '%d btoi::<i64> call(s)' % n)
